@@ -689,6 +689,16 @@ func (r *Resolver) groupLookup(ctx context.Context, rs *resolveState, req *dns.M
 			// reference and can mutate the ID in place.
 			if shared {
 				resp = resp.Copy()
+				// The lookup key folds letter case, so the shared response
+				// echoes the question as the LEADER spelled it. A caller
+				// that joined with another spelling (0x20) gets its own
+				// question back, as it gets its own ID.
+				if len(resp.Question) == 1 && len(req.Question) == 1 &&
+					resp.Question[0].Qtype == req.Question[0].Qtype &&
+					resp.Question[0].Qclass == req.Question[0].Qclass &&
+					strings.EqualFold(resp.Question[0].Name, req.Question[0].Name) {
+					resp.Question[0].Name = req.Question[0].Name
+				}
 			}
 			resp.Id = req.Id
 		}
